@@ -189,7 +189,7 @@ class Program:
                else "use metrique_writer::value::ToString as FmtToString;")
         out = ["// generated by tools/gen_entryderive.py from TLC behaviours of spec/entryderive/EntryDerive.tla - do not edit",
                "#![allow(warnings, clippy::all)]",
-               use, fmt, "use std::time::SystemTime;", "use vharness_entry::{record_catch, ts};", "",
+               use, fmt, "use std::time::SystemTime;", "use vharness_entry::{guarded, record_line, ts};", "",
                "// the type behind an absent Option<Child>: none of this may ever be written",
                "#[derive(Entry)]\nstruct Canary { canary: u64, #[entry(sample_group)] canary_group: &'static str, "
                "#[entry(timestamp)] canary_at: SystemTime }\n"]
@@ -197,7 +197,7 @@ class Program:
         out.append("fn main() {")
         out.append("    let mut out = String::new();")
         for bid, expr in self.instances:
-            out.append(f"    out.push_str(&record_catch({rust_str(bid)}, || {expr})); out.push('\\n');")
+            out.append(f"    guarded(&mut out, {rust_str(bid)}, &mut || record_line({rust_str(bid)}, &{expr}));")
         out.append("    print!(\"{out}\");")
         out.append("}")
         return "\n".join(out) + "\n"
